@@ -113,6 +113,24 @@ def run(ctx):
 
     ctx.run_shards(xs, timeout=600, on_compile_fail=extra_fail)
 
+    # well-kinded compositions at the edges of the kind rules (harness/c13_edges.cpp): array index types narrower than
+    # size_t beneath every storage order (with and without -mbmi2), and stacks whose view state is exactly 256 bytes
+    edges_src = os.path.join(core.HARNESS, "c13_edges.cpp")
+    es = []
+    for k, key in enumerate(["narrow-array-index:strided", "narrow-array-index:morton-bmi2", "narrow-array-index:morton-portable", "narrow-array-index:hilbert", "view-limit"]):
+        es.append(dict(name="edges/%s/asan-dbg" % key, src=edges_src, flavour="asan-dbg", defines=["PART=%d" % k]))
+        if k in (1, 2):
+            es.append(dict(name="edges/%s/asan-dbg+bmi2" % key, src=edges_src, flavour="asan-dbg+bmi2", defines=["PART=%d" % k], primary=False))
+        es.append(dict(name="edges/%s/asan-rel" % key, src=edges_src, flavour="asan-rel", defines=["PART=%d" % k], primary=False))
+
+    def edge_fail(shard, build):
+        key = shard["name"].split("/")[1]
+        ctx.violation("compile:edge:%s" % key, "a well-kinded composition does not compile (%s): %s" % (build.flavour, core.first_error(build.log)), shard=shard["name"],
+                      flavour=build.flavour, extra={"compile_log": build.log[-4000:]})
+        return True
+
+    ctx.run_shards(es, timeout=600, on_compile_fail=edge_fail)
+
     # ill-kinded catalogue: the compiler's verdict is the only observable
     jobs, meta = [], []
     for name, bad, frag, good in CATALOGUE:
@@ -139,7 +157,10 @@ def run(ctx):
               "copy- and move-constructs, copy-assigns (incl. self), move-assigns, reads the configuration chain and rebuilds, dumps, loads, and "
               "converts (copy and move) from a compatible stack with another storage order and interpolator, and (row-major stacks) is built from a pack that ends with the extents, passed as a temporary and as a named object; every member is compiled AND run under "
               "ASan+UBSan with assertions on, and after every member the resulting field is compared with the reference interpreter.  A stack "
-              "that does not compile is re-compiled one member at a time (-fsyntax-only) and reported as compile:<member>:<header>.  Ill-kinded "
+              "that does not compile is re-compiled one member at a time (-fsyntax-only) and reported as compile:<member>:<header>.  Assignments (copy, move, std::swap) "
+              "are also made OVER a field of the same type holding other configuration values in every layer (zoo: make_other).  Edges of the kind rules, hand-written "
+              "(harness/c13_edges.cpp): array index types narrower than size_t (uint8/16/32) beneath strided / morton<true> / morton<false> / hilbert, 1-4 "
+              "dimensions, with and without -mbmi2; four stacks whose view state is exactly 256 bytes (the library's limit) or 240: whole API with value checks.  Ill-kinded "
               "half: a catalogue of %d compositions that violate a stated kind must be rejected by the compiler, each with a well-kinded twin that "
               "must compile.  non-trivial: stack of depth >= 2; distinct = hash of the stack description") % len(CATALOGUE),
         assumptions=["the ill-kinded half has no execution to monitor: it is observed through the compiler's exit status and diagnostic text only (weakest evidence in this framework)",
